@@ -1,5 +1,6 @@
 import BdModel.Proofs.Hist
 import BdModel.Proofs.HistNames
+import BdModel.Proofs.HistRefine
 /-
   C06 — history queries return exactly what was recorded, per DAG.
   Property theorems only (helpers: Proofs/Hist.lean). Record layer of the store AFTER the fixes
@@ -244,6 +245,283 @@ example : (find demo 0 70).map (·.2.pay) = some 1 := by decide
 example : (find demo 1 70).map (·.2.pay) = none := by decide
 example : (latest demo 1).map (·.pay) = some 3 := by decide
 
+/-! ### operation level: the store refines the run log of the property (helpers: Proofs/HistRefine.lean)
+
+  The specification is the reference of the property itself (`Spec` of lib/hist.py, here `Hist.Spec`):
+  a log of runs `SRun` = {DAG, start time, request id, last status or none, age}; `open` appends a run,
+  `write`/`update` replace its last status, `rename` moves the runs of a DAG, `removeOld` forgets old
+  runs. `Sim s sp` relates a store state to a log: every run has exactly one file that is its record
+  (the original file while the run is open, abandoned or without a status; the `_c` twin after a close
+  with a status), the last complete line of that file is (request id, last payload) of the run, its
+  mtime age is the run's age, every file is the record of a run, and the recorders hold the same runs.
+  Quantification: every store state, every log, every operation, every operation sequence — under the
+  side condition `Admissible` (what the callers guarantee; a decidable statement about the log). -/
+
+theorem mem_recorded {s : Store} {d : Nat} {f : RunFile} :
+    f ∈ recorded s d ↔ f ∈ s.files ∧ f.dag = d ∧ (parse f).isSome = true := by
+  simp only [recorded, filesOf, List.mem_filter, beq_iff_eq]
+  constructor
+  · rintro ⟨⟨a, b⟩, c⟩; exact ⟨a, b, c⟩
+  · rintro ⟨a, b, c⟩; exact ⟨⟨a, b⟩, c⟩
+
+/-- a recorded file is the record of a recorded run, and conversely -/
+theorem recorded_file_run {s sp} (h : Sim s sp) {d : Nat} {f : RunFile} (hf : f ∈ recorded s d) :
+    ∃ r ∈ Spec.recorded sp d, Matches f r := by
+  obtain ⟨h1, h2, h3⟩ := mem_recorded.mp hf
+  obtain ⟨r, hr, m⟩ := h.file_run f h1
+  refine ⟨r, Spec.mem_recorded.mpr ⟨hr, by rw [← m.fields.1]; exact h2, ?_⟩, m⟩
+  rw [m.status] at h3
+  simpa [SRun.status] using h3
+
+theorem recorded_run_file {s sp} (h : Sim s sp) {d : Nat} {r : SRun} (hr : r ∈ Spec.recorded sp d) :
+    ∃ f ∈ recorded s d, Matches f r := by
+  obtain ⟨h1, h2, h3⟩ := Spec.mem_recorded.mp hr
+  obtain ⟨f, hf, m⟩ := h.run_file r h1
+  refine ⟨f, mem_recorded.mpr ⟨hf, by rw [m.fields.1]; exact h2, ?_⟩, m⟩
+  rw [m.status]
+  simpa [SRun.status] using h3
+
+/-- **C06 (refinement, initial state).** The empty store is the empty log. -/
+theorem C06_sim_init : Sim {} [] := sim_init
+
+/-- **C06 (refinement, one operation).** For every store state `s` and log `sp` with `Sim s sp` and
+    every operation that is admissible in `sp`: the store after the operation is the log after the
+    operation. -/
+theorem C06_sim_step (s : Store) (sp : Spec) (op : HOp) (h : Sim s sp) (ha : Admissible sp op) :
+    Sim (applyStore s op) (applySpec sp op) := sim_step h op ha
+
+/-- **C06 (lookup = last status recorded for that run).** Under `Sim s sp`: the lookup of request id
+    `req` in DAG `d` answers with status (req, p) iff the log has a run of `d` with that request id whose
+    last recorded payload is `p`; it answers "not found" iff no recorded run of `d` has that id; and
+    there is at most one run of `d` with that id. -/
+theorem C06_spec_lookup (s : Store) (sp : Spec) (h : Sim s sp) (d req : Nat) :
+    (∀ p, (∃ f, find s d req = some (f, ⟨req, p⟩)) ↔ ∃ r ∈ sp, r.dag = d ∧ r.req = req ∧ r.last = some p) ∧
+    (find s d req = none ↔ ∀ r ∈ Spec.recorded sp d, r.req ≠ req) ∧
+    (∀ a ∈ sp, ∀ b ∈ sp, a.dag = d → b.dag = d → a.req = req → b.req = req → a = b) := by
+  have hsound : ∀ f l, find s d req = some (f, l) →
+      ∃ r ∈ sp, Matches f r ∧ r.dag = d ∧ r.req = req ∧ r.last = some l.pay ∧ l.req = req := by
+    intro f l hf
+    obtain ⟨h1, h2, h3, h4⟩ := find_dag hf
+    obtain ⟨r, hr, m⟩ := h.file_run f h1
+    have hs := status_eq_some (by rw [← m.status]; exact h3)
+    exact ⟨r, hr, m, by rw [← m.fields.1]; exact h2, by rw [← hs.2]; exact h4, hs.1, h4⟩
+  have huniq : ∀ a ∈ sp, ∀ b ∈ sp, a.dag = d → b.dag = d → a.req = req → b.req = req → a = b := by
+    intro a ha b hb h1 h2 h3 h4
+    exact h.eq_of_clash ha hb ⟨by rw [h1, h2], Or.inl (by rw [h3, h4])⟩
+  refine ⟨?_, ?_, huniq⟩
+  · intro p
+    constructor
+    · rintro ⟨f, hf⟩
+      obtain ⟨r, hr, _, h1, h2, h3, _⟩ := hsound f _ hf
+      exact ⟨r, hr, h1, h2, h3⟩
+    · rintro ⟨r, hr, h1, h2, h3⟩
+      obtain ⟨f, hf, m⟩ := h.run_file r hr
+      have hp : f.lines.getLast? = some ⟨req, p⟩ := by
+        have := m.status; simpa [parse, SRun.status, h3, h2] using this
+      have hfo : f ∈ filesOf s d := by
+        simp only [filesOf, List.mem_filter, beq_iff_eq]
+        exact ⟨hf, by rw [m.fields.1]; exact h1⟩
+      have hsome := C06_lookup_complete s d req f _ hfo hp rfl
+      obtain ⟨⟨f', l'⟩, hfl⟩ := Option.isSome_iff_exists.mp hsome
+      obtain ⟨r', hr', _, g1, g2, g3, g4⟩ := hsound f' l' hfl
+      have : r' = r := huniq r' hr' r hr g1 h1 g2 h2
+      subst this
+      rw [h3] at g3
+      have : l' = ⟨req, p⟩ := by
+        cases l'; simp only [Line.mk.injEq]; simp at g3 g4; exact ⟨g4, g3.symm⟩
+      exact ⟨f', by rw [hfl, this]⟩
+  · constructor
+    · intro hn r hr hq
+      obtain ⟨f, hf, m⟩ := recorded_run_file h hr
+      obtain ⟨h1, h2, h3⟩ := mem_recorded.mp hf
+      obtain ⟨l, hl⟩ := Option.isSome_iff_exists.mp h3
+      have hs := status_eq_some (by rw [← m.status]; exact hl)
+      exact find_none hn f h1 h2 l hl (by rw [hs.2]; exact hq)
+    · intro hall
+      cases hf : find s d req with
+      | none => rfl
+      | some fl =>
+        obtain ⟨f, l⟩ := fl
+        obtain ⟨r, hr, _, h1, h2, h3, _⟩ := hsound f l hf
+        exact absurd h2 (hall r (Spec.mem_recorded.mpr ⟨hr, h1, by simp [h3]⟩))
+
+/-- **C06 (latest = last status of the most recently started run).** Under `Sim s sp`: the
+    latest-status query of DAG `d` returns the last status of a recorded run of `d` that no recorded run
+    of `d` was started after; it answers `none` iff the log has no recorded run of `d`. -/
+theorem C06_spec_latest (s : Store) (sp : Spec) (h : Sim s sp) (d : Nat) :
+    (∀ l, latest s d = some l →
+        ∃ r ∈ Spec.recorded sp d, r.status = some l ∧ ∀ r' ∈ Spec.recorded sp d, r'.t ≤ r.t) ∧
+    (latest s d = none ↔ Spec.recorded sp d = []) := by
+  obtain ⟨h1, h2⟩ := C06_latest s d
+  constructor
+  · intro l hl
+    obtain ⟨f, hf, hp, hmax⟩ := h1 l hl
+    obtain ⟨r, hr, m⟩ := recorded_file_run h hf
+    refine ⟨r, hr, by rw [← m.status]; exact hp, ?_⟩
+    intro r' hr'
+    obtain ⟨g, hg, mg⟩ := recorded_run_file h hr'
+    have := hmax g hg
+    rw [mg.fields.2.1, m.fields.2.1] at this
+    exact this
+  · rw [h2]
+    constructor
+    · intro he
+      rw [List.eq_nil_iff_forall_not_mem]
+      intro r hr
+      obtain ⟨f, hf, _⟩ := recorded_run_file h hr
+      rw [he] at hf; cases hf
+    · intro he
+      rw [List.eq_nil_iff_forall_not_mem]
+      intro f hf
+      obtain ⟨r, hr, _⟩ := recorded_file_run h hf
+      rw [he] at hr; cases hr
+
+/-- **C06 (recent = the n most recently started runs, newest first).** Under `Sim s sp`:
+    `recent d n` lists the last statuses of `min n (number of recorded runs of d)` pairwise different
+    recorded runs of `d`, in the order of their start times, newest first, and every recorded run of `d`
+    that is left out was started no later than every listed one. -/
+theorem C06_spec_recent (s : Store) (sp : Spec) (h : Sim s sp) (d n : Nat) :
+    ∃ rs : List SRun,
+      recent s d n = rs.filterMap SRun.status ∧ (recent s d n).length = rs.length ∧
+      rs.length = min n (Spec.recorded sp d).length ∧ rs.Nodup ∧
+      (∀ r ∈ rs, r ∈ Spec.recorded sp d) ∧ rs.Pairwise (fun a b => b.t ≤ a.t) ∧
+      ∀ g ∈ Spec.recorded sp d, g ∉ rs → ∀ r ∈ rs, g.t ≤ r.t := by
+  obtain ⟨fs, e1, e2, e3, e4, e5, e6, e7⟩ := C06_recent s d n
+  have hfs : ∀ f ∈ fs, f ∈ s.files := fun f hf => (mem_recorded.mp (e4 f hf)).1
+  obtain ⟨rs, l1, l2, l3, l4, l5, l6, l7⟩ := h.lift fs hfs
+  have hrec : ∀ r ∈ rs, r ∈ Spec.recorded sp d := by
+    intro r hr
+    obtain ⟨f, hf, m⟩ := l6 r hr
+    obtain ⟨r', hr', m'⟩ := recorded_file_run h (e4 f hf)
+    rw [h.run_unique (l2 r hr) (Spec.mem_recorded.mp hr').1 m m']
+    exact hr'
+  have hnd : rs.Nodup := by
+    have hn : (rs.filterMap (fun r => r.status.map (·.req))).Nodup := by rw [← l4]; exact e6
+    have hall : rs.filterMap (fun r => r.status.map (·.req)) = rs.map (·.req) := by
+      apply filterMap_eq_map_of
+      intro r hr
+      obtain ⟨p, hp⟩ := Option.isSome_iff_exists.mp (Spec.mem_recorded.mp (hrec r hr)).2.2
+      simp [SRun.status, hp]
+    rw [hall, List.nodup_iff_pairwise_ne, List.pairwise_map] at hn
+    rw [List.nodup_iff_pairwise_ne]
+    exact hn.imp (fun hne e => hne (by rw [e]))
+  have hdesc : rs.Pairwise (fun a b => b.t ≤ a.t) := by
+    have : (fs.map (·.stamp)).Pairwise (fun a b => b ≤ a) := by
+      rw [List.pairwise_map]; exact e5
+    rw [l5, List.pairwise_map] at this
+    exact this
+  have hrest : ∀ g ∈ Spec.recorded sp d, g ∉ rs → fs.length = n ∧ ∀ r ∈ rs, g.t ≤ r.t := by
+    intro g hg hnot
+    obtain ⟨fg, hfg, mg⟩ := recorded_run_file h hg
+    have hgsp := (Spec.mem_recorded.mp hg).1
+    have hfgn : fg ∉ fs := by
+      intro hin
+      obtain ⟨r, hr, m⟩ := l7 fg hin
+      exact hnot (by rw [h.run_unique hgsp (l2 r hr) mg m]; exact hr)
+    rcases e7 fg hfg hfgn with ⟨f, hf, hq, _⟩ | ⟨hfull, hle⟩
+    · exfalso
+      obtain ⟨r, hr, m⟩ := l7 f hf
+      have hrr := Spec.mem_recorded.mp (hrec r hr)
+      have hgg := Spec.mem_recorded.mp hg
+      obtain ⟨p, hp⟩ := Option.isSome_iff_exists.mp hrr.2.2
+      obtain ⟨pg, hpg⟩ := Option.isSome_iff_exists.mp hgg.2.2
+      have : r.req = g.req := by
+        simpa [reqOf, m.status, mg.status, SRun.status, hp, hpg] using hq
+      have : r = g := h.eq_of_clash hrr.1 hgg.1 ⟨by rw [hrr.2.1, hgg.2.1], Or.inl this⟩
+      exact hnot (this ▸ hr)
+    · refine ⟨hfull, ?_⟩
+      intro r hr
+      obtain ⟨f, hf, m⟩ := l6 r hr
+      have := hle f hf
+      rw [mg.fields.2.1, m.fields.2.1] at this
+      exact this
+  refine ⟨rs, by rw [e1, l3], by rw [← e2, l1], ?_, hnd, hrec, hdesc, fun g hg hn => (hrest g hg hn).2⟩
+  have hle : rs.length ≤ (Spec.recorded sp d).length := length_le_of_nodup_subset hnd hrec
+  rcases Nat.lt_or_ge rs.length n with hlt | hge
+  · have hall : ∀ g ∈ Spec.recorded sp d, g ∈ rs := by
+      intro g hg
+      apply Classical.byContradiction
+      intro hn
+      have := (hrest g hg hn).1
+      omega
+    have := length_le_of_nodup_subset (h.recorded_nodup d) hall
+    omega
+  · omega
+
+/-- **C06 (refinement, operation sequences).** For EVERY sequence of operations — runs being opened,
+    recorded, closed or abandoned by any number of recorders, manual status updates, renames, ageing and
+    retention clean-ups over any set of DAGs — each admissible in the log state it is applied to:
+    the store reached from the empty store is the log reached from the empty log. -/
+theorem C06_refinement (ops : List HOp) (ha : AdmissibleSeq [] ops) :
+    Sim (ops.foldl applyStore {}) (ops.foldl applySpec []) := sim_seq sim_init ops ha
+
+/-- … hence a lookup by request id returns the last status recorded for that run, -/
+theorem C06_refinement_lookup (ops : List HOp) (ha : AdmissibleSeq [] ops) (d req : Nat) :
+    (∀ p, (∃ f, find (ops.foldl applyStore {}) d req = some (f, ⟨req, p⟩)) ↔
+        ∃ r ∈ ops.foldl applySpec [], r.dag = d ∧ r.req = req ∧ r.last = some p) ∧
+    (find (ops.foldl applyStore {}) d req = none ↔ ∀ r ∈ Spec.recorded (ops.foldl applySpec []) d, r.req ≠ req) ∧
+    (∀ a ∈ ops.foldl applySpec [], ∀ b ∈ ops.foldl applySpec [],
+        a.dag = d → b.dag = d → a.req = req → b.req = req → a = b) :=
+  C06_spec_lookup _ _ (C06_refinement ops ha) d req
+
+/-- … the latest-status query returns the last status of the most recently started run, -/
+theorem C06_refinement_latest (ops : List HOp) (ha : AdmissibleSeq [] ops) (d : Nat) :
+    (∀ l, latest (ops.foldl applyStore {}) d = some l →
+        ∃ r ∈ Spec.recorded (ops.foldl applySpec []) d, r.status = some l ∧
+          ∀ r' ∈ Spec.recorded (ops.foldl applySpec []) d, r'.t ≤ r.t) ∧
+    (latest (ops.foldl applyStore {}) d = none ↔ Spec.recorded (ops.foldl applySpec []) d = []) :=
+  C06_spec_latest _ _ (C06_refinement ops ha) d
+
+/-- … and the recent-history query returns the n most recently started runs, newest first. -/
+theorem C06_refinement_recent (ops : List HOp) (ha : AdmissibleSeq [] ops) (d n : Nat) :
+    ∃ rs : List SRun,
+      recent (ops.foldl applyStore {}) d n = rs.filterMap SRun.status ∧
+      (recent (ops.foldl applyStore {}) d n).length = rs.length ∧
+      rs.length = min n (Spec.recorded (ops.foldl applySpec []) d).length ∧ rs.Nodup ∧
+      (∀ r ∈ rs, r ∈ Spec.recorded (ops.foldl applySpec []) d) ∧ rs.Pairwise (fun a b => b.t ≤ a.t) ∧
+      ∀ g ∈ Spec.recorded (ops.foldl applySpec []) d, g ∉ rs → ∀ r ∈ rs, g.t ≤ r.t :=
+  C06_spec_recent _ _ (C06_refinement ops ha) d n
+
+/-- … every run of the log has exactly one file in the store (its record), and no file name occurs
+    twice. -/
+theorem C06_refinement_one_file (ops : List HOp) (ha : AdmissibleSeq [] ops) :
+    KeysNodup (ops.foldl applyStore {}) ∧
+    ∀ r ∈ ops.foldl applySpec [], ∃ f, Matches f r ∧
+      (ops.foldl applyStore {}).files.filter (fun g => g.key == r.fileKey) = [f] :=
+  have hn := keysNodup_seq ops {} (by simp [KeysNodup])
+  ⟨hn, fun r hr => (C06_refinement ops ha).one_file hn r hr⟩
+
+/-! non-vacuity of the refinement: run 70 of DAG 0 is recorded twice, closed (compacted), edited by hand
+    and renamed to DAG 1; a second run (80) of DAG 1 is started; later both files age 3 days, run 80 is
+    edited (its file is fresh again) and retention (2 days) forgets run 70 -/
+def rops1 : List HOp :=
+  [.openRun 0 0 1000 7 70, .write 0 ⟨70, 1⟩, .write 0 ⟨70, 2⟩, .close 0, .update 0 ⟨70, 3⟩, .rename 0 1,
+   .openRun 1 1 1500 8 80, .write 1 ⟨80, 4⟩]
+def rops2 : List HOp := rops1 ++ [.close 1, .age 1 3, .update 1 ⟨80, 5⟩, .removeOld 1 2]
+
+example : AdmissibleSeq [] rops1 := by decide
+example : AdmissibleSeq [] rops2 := by decide
+example : rops1.foldl applySpec [] =
+    [{ dag := 1, t := 1000, req8 := 7, req := 70, last := some 3, comp := true },
+     { dag := 1, t := 1500, req8 := 8, req := 80, last := some 4, holder := some 1 }] := by decide
+example : (find (rops1.foldl applyStore {}) 1 70).map (·.2) = some ⟨70, 3⟩ := by decide
+example : (find (rops1.foldl applyStore {}) 0 70).map (·.2) = none := by decide
+example : latest (rops1.foldl applyStore {}) 1 = some ⟨80, 4⟩ := by decide
+example : recent (rops1.foldl applyStore {}) 1 5 = [⟨80, 4⟩, ⟨70, 3⟩] := by decide
+example : rops2.foldl applySpec [] =
+    [{ dag := 1, t := 1500, req8 := 8, req := 80, last := some 5, comp := true }] := by decide
+example : (find (rops2.foldl applyStore {}) 1 70).map (·.2) = none := by decide
+example : (find (rops2.foldl applyStore {}) 1 80).map (·.2) = some ⟨80, 5⟩ := by decide
+example : latest (rops2.foldl applyStore {}) 1 = some ⟨80, 5⟩ := by decide
+example : recent (rops2.foldl applyStore {}) 1 5 = [⟨80, 5⟩] := by decide
+/-- the side condition is not vacuous either: renaming a DAG whose run is still being recorded is refused -/
+example : ¬ AdmissibleSeq [] [.openRun 0 0 1000 7 70, .rename 0 1] := by decide
+/-- … and for a reason: the status written after such a rename is lost (the log holds it, the lookup
+    does not find it) — callers must not rename a DAG that is running -/
+example : (find ([HOp.openRun 0 0 1000 7 70, .rename 0 1, .write 0 ⟨70, 1⟩].foldl applyStore {}) 1 70).map (·.2) = none ∧
+    ([HOp.openRun 0 0 1000 7 70, .rename 0 1, .write 0 ⟨70, 1⟩].foldl applySpec []).map (fun r => (r.dag, r.status)) =
+      [(1, some ⟨70, 1⟩)] := by decide
+
 end BdModel.P06
 
 #print axioms BdModel.P06.C06_lookup_sound
@@ -257,3 +535,13 @@ end BdModel.P06
 #print axioms BdModel.P06.C06_glob
 #print axioms BdModel.P06.C06_glob_selects_own
 #print axioms BdModel.P06.C06_glob_only_own
+#print axioms BdModel.P06.C06_sim_init
+#print axioms BdModel.P06.C06_sim_step
+#print axioms BdModel.P06.C06_spec_lookup
+#print axioms BdModel.P06.C06_spec_latest
+#print axioms BdModel.P06.C06_spec_recent
+#print axioms BdModel.P06.C06_refinement
+#print axioms BdModel.P06.C06_refinement_lookup
+#print axioms BdModel.P06.C06_refinement_latest
+#print axioms BdModel.P06.C06_refinement_recent
+#print axioms BdModel.P06.C06_refinement_one_file
